@@ -134,15 +134,20 @@ def evaluate(case) -> Verdict:
     steps = case["steps"]
     prev_vals: dict = {}
     eqdist = False
-    for i, st_ in enumerate(steps):
-        cfg = HIST_CFGS[st_["cfg"] % len(HIST_CFGS)]
+    # pass 1: the history itself, undisturbed by the oracle
+    gots = []
+    for st_ in steps:
         key = st_["cfg"] % len(HIST_CFGS)
+        cfg = HIST_CFGS[key]
         if key not in envs_by_cfg:
             envs_by_cfg[key] = envs.make_env(cfg, HIST_PARTIALS)
         env = envs_by_cfg[key]
         src = HIST_TEMPLATES[st_["t"] % len(HIST_TEMPLATES)]
         data = {"v": st_["v"], "w": st_["w"], "f": st_["f"], "lst": st_["lst"]}
-        got = oc.short(oc.outcome_of(lambda: env.from_string(src).render(**gd.decode(data))))
+        gots.append((cfg, src, data, oc.short(oc.outcome_of(lambda: env.from_string(src).render(**gd.decode(data))))))
+    # pass 2: every step evaluated alone
+    for i, (cfg, src, data, got) in enumerate(gots):
+        st_ = steps[i]
         if case.get("isolation") == "process":
             want = tuple(isolate.isolated("vf.props.c17_purity", "eval_alone", (cfg, src, data, HIST_PARTIALS)))
         else:
